@@ -111,8 +111,8 @@ func (pc *probe) runSubmit(orig any, want string, setup func(v *validatorapi.Com
 		if setup != nil {
 			setup(v)
 		}
-		f := &fan{pc: pc, name: "validatorapi fan-out", mutator: pc.rng.Intn(2), concurrent: concurrent}
-		for s := 0; s < 2; s++ {
+		f := &fan{pc: pc, name: "validatorapi fan-out", mutator: pc.rng.Intn(pc.nsubs), concurrent: concurrent}
+		for s := 0; s < pc.nsubs; s++ {
 			s := s
 			v.Subscribe(func(_ context.Context, _ core.Duty, set core.ParSignedDataSet) error {
 				f.recv(s, set)
@@ -137,7 +137,7 @@ func (pc *probe) runSubmit(orig any, want string, setup func(v *validatorapi.Com
 			pc.anomaly("restore-rejected", fmt.Sprintf("second submit failed: %v", err))
 		}
 		inputs[fmt.Sprintf("caller's request (call %d)", round)] = pc.reach(in)
-		if n := len(f.snapshot()); n != 2*round {
+		if n := len(f.snapshot()); n != pc.nsubs*round {
 			pc.inconclusive("validatorapi subscribers got %d deliveries after call %d", n, round)
 			return
 		}
@@ -190,7 +190,7 @@ func (pc *probe) runSubmit(orig any, want string, setup func(v *validatorapi.Com
 		cinputs[fmt.Sprintf("request of goroutine %d", i)] = pc.reach(cins[i])
 	}
 	dels := f.snapshot()
-	if len(dels) != 2*g && len(errs) == 0 {
+	if len(dels) != pc.nsubs*g && len(errs) == 0 {
 		pc.inconclusive("validatorapi subscribers got %d deliveries from %d concurrent submits", len(dels), g)
 	}
 	pc.checkFan(f, dels, cinputs, expect, "after the concurrent phase")
